@@ -111,7 +111,9 @@ func setupEnv() {
 	if err := chain.Init(nil); err != nil {
 		panic("harness: chain.Init: " + err.Error())
 	}
-	blockchain.DefaultLedger = &blockchain.Ledger{Blockchain: chain, Store: store, Arbitrators: arbitrators}
+	mockLedger = &blockchain.Ledger{Blockchain: chain, Store: store, Arbitrators: arbitrators}
+	mockFoundation = blockchain.FoundationAddress
+	blockchain.DefaultLedger = mockLedger
 	chainRef = chain
 	storeRef = store
 }
@@ -320,8 +322,16 @@ type hist struct {
 
 var H *hist
 
+var (
+	mockLedger     *blockchain.Ledger
+	mockFoundation common.Uint168
+)
+
 func newHist(max uint64) {
 	setupEnv()
+	// a real-chain flow (rcflow) installs its own ledger: switch back to the mock chain
+	blockchain.DefaultLedger = mockLedger
+	blockchain.FoundationAddress = mockFoundation
 	for k := range db.txs {
 		delete(db.txs, k)
 	}
@@ -685,6 +695,8 @@ func idList(s string) []int {
 
 func exec(t []string) string {
 	switch t[0] {
+	case "rcflow":
+		return execRealChain(t)
 	case "reset":
 		max := uint64(20000000)
 		if len(t) > 1 {
@@ -962,7 +974,12 @@ func requiredRejects(block []int) map[int]bool {
 }
 
 func oracle(t []string, out string) *hx.Violation {
-	if H == nil || t[0] != "snap" || H.broken || H.midCleanup || lastSnap == nil {
+	if t[0] == "rcflow" {
+		return rcViolation
+	}
+	// every snapshot is judged: since the fix bf24ffb2 the index is exact also between the two halves
+	// of the cleanup and whatever the re-check decides
+	if H == nil || t[0] != "snap" || lastSnap == nil {
 		return nil
 	}
 	v := lastSnap
